@@ -34,7 +34,32 @@ Theorem C03_restart_refines_refuted :
 Proof. exact restart_refines_refuted. Qed.
 Print Assumptions C03_restart_refines_refuted.
 
-(* ---- branch heads: recomputed from leaves on load vs the live branch map ---- *)
+(* ---- branch heads ---- *)
+(* Repaired code (repo_patches/C03-3-fix.diff): the head of a branch is the node with the largest
+   version id carrying the branch name, computed from the DAG both while running and at start-up.
+   After ANY history with accepted merges, cut anywhere, every branch of every repo resolves to the
+   same node before and after a restart (merge nodes are on master). *)
+Theorem C03_branch_heads_restart : forall C m img ops rid br,
+  pinv m img = true -> synced m img -> run_accepted C m ops = true ->
+  let '(m', img') := prun_img C m img ops in
+  exists mr wr, recover C img' = Ok (mr, wr) /\ branch_head mr rid br = branch_head m' rid br.
+Proof. exact branch_head_restart. Qed.
+Print Assumptions C03_branch_heads_restart.
+
+Theorem C03_branch_heads_examples :
+  (let '(m, _) := r_run [PNewRepo 11; PCommit 1 1; PNewVersion 1 1 None 12; PNewVersion 1 1 (Some 7) 13;
+                         PCommit 1 2; PCommit 1 3; PMerge 1 [2; 3] 14] in
+   branch_head m 1 0 = Some 4 /\ branch_head m 1 7 = Some 3) /\
+  (let '(m, _) := r_run [PNewRepo 11; PCommit 1 1; PNewVersion 1 1 (Some 7) 12] in
+   branch_head m 1 0 = Some 1 /\ branch_head m 1 7 = Some 2) /\
+  (let '(m, _) := r_run [PNewRepo 11; PCommit 1 1; PNewVersion 1 1 None 12; PNewVersion 1 1 (Some 7) 13;
+                         PNewVersion 1 1 (Some 8) 14; PCommit 1 3; PCommit 1 4; PMerge 1 [3; 4] 15] in
+   branch_head m 1 0 = Some 5).
+Proof. exact branch_head_examples. Qed.
+Print Assumptions C03_branch_heads_examples.
+
+(* The code as it stood: heads recomputed from LEAVES on load vs the live map kept by newRepo and
+   newVersion ([live_head] / [rebuilt_head]). *)
 (* A merge node carries branch "" and the live map is not told about it; its parents stop being
    leaves.  Running server: master -> node 2; after a restart: master -> node 4 (known finding). *)
 Theorem C03_branch_heads_merge_refuted :
@@ -107,9 +132,14 @@ Theorem C03_maxlabel_reload : forall s, l_pmaxrepo s = Some (l_maxrepo s) ->
 Proof. exact maxlabel_reload. Qed.
 Print Assumptions C03_maxlabel_reload.
 
-(* A labelmap that never persisted a label answers next label 1 before and 10000000001 after a
-   restart (known finding). *)
+(* A new instance records its maximum at creation (repo_patches/C03-2-fix.diff) and reloads as it was. *)
+Theorem C03_maxlabel_reload_fresh : l_maxrepo (l_load (l_down l_fresh)) = l_maxrepo l_fresh.
+Proof. exact maxlabel_reload_fresh. Qed.
+Print Assumptions C03_maxlabel_reload_fresh.
+
+(* As the code stood, a labelmap that never persisted a label answered next label 1 before and
+   10000000001 after a restart. *)
 Theorem C03_maxlabel_reload_refuted :
-  l_maxrepo l_fresh = 0 /\ l_maxrepo (l_load (l_down l_fresh)) = very_large_label.
+  l_maxrepo l_fresh_unrepaired = 0 /\ l_maxrepo (l_load (l_down l_fresh_unrepaired)) = very_large_label.
 Proof. exact maxlabel_reload_refuted. Qed.
 Print Assumptions C03_maxlabel_reload_refuted.
